@@ -13,6 +13,7 @@ import (
 	"github.com/youchainhq/go-youchain/core"
 	"github.com/youchainhq/go-youchain/core/state"
 	"github.com/youchainhq/go-youchain/params"
+	"github.com/youchainhq/go-youchain/rlp"
 	"github.com/youchainhq/go-youchain/staking"
 )
 
@@ -143,8 +144,25 @@ func RandomEvidenceTargets(r *Run, st *state.StateDB, n uint64) []common.Address
 //	        withdraw records or the penalty account moved: a POSITIVE penalty was taken and still the
 //	        evidence was not recorded as confirmed
 func EvidenceClass(r *Run, b *BlockCtx, extra map[string]interface{}) string {
-	if len(b.EvidenceVals) == 0 || len(b.Block.Header().SlashData) != 0 {
+	if len(b.EvidenceVals) == 0 {
 		return ""
+	}
+	// whom the builder recorded as penalised: one slashing log per confirmed evidence (an evidence is
+	// put into header.SlashData exactly when its total penalty is positive, and then it is logged)
+	confirmed := map[common.Address]bool{}
+	slashTopic := common.StringToHash(staking.LogTopicSlashing)
+	for _, rc := range b.Res.ModuleReceipts {
+		for _, l := range rc.Logs {
+			if len(l.Topics) > 0 && l.Topics[0] == slashTopic {
+				var d staking.SlashDataV5
+				if rlp.DecodeBytes(l.Data, &d) == nil {
+					confirmed[d.MainAddress] = true
+				}
+			}
+		}
+	}
+	if len(b.Block.Header().SlashData) == 0 {
+		confirmed = map[common.Address]bool{}
 	}
 	pst, err := r.A.Chain.StateAt(b.Parent.Root(), b.Parent.ValRoot(), b.Parent.Header().StakingRoot)
 	if err != nil {
@@ -156,7 +174,7 @@ func EvidenceClass(r *Run, b *BlockCtx, extra map[string]interface{}) string {
 	}
 	for _, t := range b.EvidenceVals {
 		before, after := pst.GetValidatorByMainAddr(t), post.GetValidatorByMainAddr(t)
-		if before == nil {
+		if before == nil || confirmed[t] {
 			continue
 		}
 		// (the accused may be gone after the block: a full withdrawal taking effect at a period end
@@ -186,7 +204,7 @@ func EvidenceClass(r *Run, b *BlockCtx, extra map[string]interface{}) string {
 		} else {
 			extra["accused_after_on_builder"] = "deleted in this block"
 		}
-		extra["header_slashdata"] = "empty"
+		extra["header_slashdata"] = fmt.Sprintf("%d bytes, %d other accused recorded", len(b.Block.Header().SlashData), len(confirmed))
 		pa := r.W.YP.PenaltyTo
 		extra["penalty_account_on_builder"] = fmt.Sprintf("%v -> %v", pst.GetBalance(pa), post.GetBalance(pa))
 		if len(taken) > 0 {
